@@ -256,3 +256,18 @@ pub fn deposit_withdraw_value(_s: &Pool2, ctx: &mut Ctx, _b0: [u128; 2], _b2: [u
     // monotonicity, and the LP supply returns to its previous value
     ctx.probe("stable_deposit_withdraw_completed");
 }
+
+/// LP the contract's own (emulated) arithmetic would mint for a deposit; None when it would not mint
+pub fn predicted_mint(amp: u64, reserves: [u128; 2], amounts: [u128; 2], share: u128) -> Option<u128> {
+    let d0 = compute_d_raw_emulated(amp, reserves[0], reserves[1])?;
+    let d1 = compute_d_raw_emulated(amp, reserves[0].checked_add(amounts[0])?, reserves[1].checked_add(amounts[1])?)?;
+    if d1 <= d0 || d0 == U1024::ZERO {
+        return None;
+    }
+    let m = w(share) * (d1 - d0) / d0;
+    if m > w(u128::MAX) {
+        None
+    } else {
+        Some(m.digits()[0] as u128 | ((m.digits()[1] as u128) << 64))
+    }
+}
